@@ -279,14 +279,39 @@ theorem fill_w {e : Env} {s s' : St} {dt : Int} {lbids : List LBid}
       · exact (fillLoop_w hw hdt _ _ _ hi (hi.open_ a ha).2.1 h).1
 
 /-- well-formed operation WITHOUT the "one limit bid per premium" clause -/
-def WfOpW : Op → Prop
+def WfOpW (e : Env) : Op → Prop
   | .bid _ _ dt => 0 ≤ dt
   | .tick _ twaC _ twaD _ _ => 0 ≤ twaC ∧ 0 ≤ twaD
+  | .tickEsm _ twaC _ twaD _ _ => 0 ≤ twaC ∧ 0 ≤ twaD ∧ e.kind ≠ .vault
   | .reserve _ _ => True
   | .limit _ _ _ => True
 
-theorem step_w {e : Env} {s : St} {op : Op} (hw : WfEnv e) (hi : InvW e s) (hop : WfOpW op) : InvW e (step e s op) := by
+theorem tickIterEsm_w {e : Env} {s : St} {now twaC twaD : Int} {actC actD : Bool}
+    (hw : WfEnv e) (hi : InvW e s) (htw : 0 ≤ twaC) (hk : e.kind ≠ .vault) :
+    InvW e (tickIterEsm e s now twaC actC twaD actD) := by
+  unfold tickIterEsm
+  split
+  · exact hi
+  · rename_i a ha
+    split
+    · split
+      · rename_i hkv; exact absurd hkv hk
+      · exact hi
+    · have := tickIter_w (now := now) (twaD := twaD) (actC := actC) (actD := actD) hw hi htw
+      unfold tickIter at this
+      rw [ha] at this
+      exact this
+
+theorem step_w {e : Env} {s : St} {op : Op} (hw : WfEnv e) (hi : InvW e s) (hop : WfOpW e op) : InvW e (step e s op) := by
   cases op with
+  | tickEsm now twaC actC twaD actD lbids =>
+    obtain ⟨h1, h2, h3⟩ := hop
+    simp only [step, orElse]
+    have hi1 := tickIterEsm_w (now := now) (twaD := twaD) (actC := actC) (actD := actD) hw hi h1 h3
+    split
+    · rename_i s' hs'
+      exact fill_w hw hi1 h2 hs'
+    · exact hi1
   | bid who amt dt =>
     simp only [step, orElse]
     split
@@ -342,7 +367,7 @@ theorem step_w {e : Env} {s : St} {op : Op} (hw : WfEnv e) (hi : InvW e s) (hop 
           simp only; rw [d]; simp; omega
       · exact hi
 
-theorem run_w {e : Env} (hw : WfEnv e) (ops : List Op) (s : St) (hi : InvW e s) (hops : ∀ op ∈ ops, WfOpW op) :
+theorem run_w {e : Env} (hw : WfEnv e) (ops : List Op) (s : St) (hi : InvW e s) (hops : ∀ op ∈ ops, WfOpW e op) :
     InvW e (run e s ops) := by
   induction ops generalizing s with
   | nil => exact hi
